@@ -6,13 +6,13 @@ import RotoV.Lemmas.Lifetime
 
 namespace RotoV.Lifetime
 
-theorem compile_inv {s : St} (hI : Inv s) (r k n : Nat) (uc uf ud : Bool) (dh : List Holder) (v : Nat) (kc kf : Bool)
+theorem compile_inv {s : St} (hI : Inv s) (r k n nz : Nat) (uc uf ud : Bool) (dh : List Holder) (v : Nat) (kc kf : Bool)
     (hk : k ∉ s.compiled) (hkc : kc = true → r ∈ s.rtConst) (hkf : kf = true → r ∈ s.rtClos)
     (huc : uc = true → kc = true) (huf : uf = true → kf = true)
     (hdh : dh.all Holder.heldByHandles = true) :
     Inv { s with
       compiled := k :: s.compiled
-      info := upd s.info k { rt := r, nconst := n, keepConst := kc, keepClos := kf, useConst := uc, useClos := uf,
+      info := upd s.info k { rt := r, nconst := n, nzst := nz, keepConst := kc, keepClos := kf, useConst := uc, useClos := uf,
                              useData := ud, dataHolders := dh, value := v }
       strong := upd s.strong k 1
       alive := k :: s.alive
@@ -34,7 +34,7 @@ theorem compile_inv {s : St} (hI : Inv s) (r k n : Nat) (uc uf ud : Bool) (dh : 
     intro h hh e
     have := (List.countP_eq_zero.1 hh0) h hh
     simp [e] at this
-  generalize hm : ({ rt := r, nconst := n, keepConst := kc, keepClos := kf, useConst := uc, useClos := uf,
+  generalize hm : ({ rt := r, nconst := n, nzst := nz, keepConst := kc, keepClos := kf, useConst := uc, useClos := uf,
                      useData := ud, dataHolders := dh, value := v } : ModInfo) = m
   have m_rt : m.rt = r := by subst hm; rfl
   have m_kc : m.keepConst = kc := by subst hm; rfl
@@ -279,12 +279,12 @@ theorem step_inv {F : Facts} (hG : Good F) {s : St} (hI : Inv s) (op : Op) (hv :
     simp only [valid, Bool.and_eq_true, Bool.not_eq_true', List.contains_eq_mem, decide_eq_true_eq,
       decide_eq_false_iff_not] at hv
     exact registerClos_inv hI hv.2
-  | compile r k n uc uf ud v =>
+  | compile r k n nz uc uf ud v =>
     simp only [valid, Bool.and_eq_true, Bool.not_eq_true', List.contains_eq_mem, decide_eq_true_eq,
       decide_eq_false_iff_not, Bool.or_eq_true] at hv
     obtain ⟨⟨⟨_, hk⟩, huc⟩, huf⟩ := hv
     simp only [step, hG.consts, hG.fns, Bool.true_and]
-    apply compile_inv hI r k n uc uf ud F.dataHolders v
+    apply compile_inv hI r k n nz uc uf ud F.dataHolders v
     · exact hk
     · intro h; simpa using h
     · intro h; subst h; simpa using huf
@@ -378,7 +378,7 @@ def obs (s : St) (j : Nat) : Obs :=
 
 /-- the package an operation works on -/
 def target (s : St) : Op → Option Nat
-  | .compile _ k _ _ _ _ _ => some k
+  | .compile _ k _ _ _ _ _ _ => some k
   | .getHandle k => some k
   | .getTest k => some k
   | .dropPackage k => some k
@@ -415,7 +415,7 @@ theorem frame {F : Facts} (hG : Good F) {s : St} (hI : Inv s) (op : Op) (hv : va
   | registerConst r => simp [target] at ht
   | registerClosure r => simp [target] at ht
   | dropRuntime r => simp [target] at ht
-  | compile r k' n uc uf ud v =>
+  | compile r k' n nz uc uf ud v =>
     simp only [target, Option.some.injEq] at ht; subst ht
     simp only [step]
     refine ⟨?_, (by triv), ?_, ?_⟩
